@@ -5,7 +5,9 @@
 //!        3 serde_json::Value, 4 serialize (recording Serializer + bincode bytes),
 //!        5 the scripted Deserializer entered through Deserialize::deserialize_in_place (u8 / f64 only:
 //!          `place` holds N dummy values beforehand); the model runs it as fmt 0
-//!   ty   0 u8, 1 f64, 2 drop-tracked Tr (newtype TrD)
+//!   ty   0 u8, 1 f64, 2 drop-tracked Tr (newtype TrD), 3 a ZERO-SIZED drop-tracked element (TzD: it
+//!        deserialises from the same numbers; identities are reconstructed from the order of creation
+//!        when the number of destructor runs is right, otherwise the count is a direct oracle)
 //!   h0   what size_hint() says before anything is read: -1 = None, otherwise Some(h0)
 //!   ha_mode/ha_p   what size_hint() says when asked again after k next_element calls:
 //!        0 None, 1 Some(max(0, ha_p - k)), 2 Some(ha_p)
@@ -26,7 +28,7 @@
 //!   JSON text / bincode bytes / Value of serialize equal the tuple encoding of the elements.
 use generic_array::typenum::*;
 use generic_array::{ArrayLength, GenericArray};
-use harness::track::{self, Ev, Tr};
+use harness::track::{self, Ev, Tr, Tz};
 use harness::*;
 use serde::de::{self, DeserializeOwned, DeserializeSeed, Deserializer, SeqAccess, Visitor};
 use serde::ser::{self, Impossible, Serialize, SerializeSeq, SerializeTuple, Serializer};
@@ -65,6 +67,10 @@ trait El: Serialize + DeserializeOwned {
     fn json(id: i128) -> String;
     fn value(id: i128) -> serde_json::Value;
     fn bin(id: i128, out: &mut Vec<u8>);
+    /// identities of an array's elements (`made` = ids in creation order, for types that carry none)
+    fn ids_of(arr: &[Self], _made: &[i128]) -> Vec<i128> {
+        arr.iter().map(|e| e.id()).collect()
+    }
 }
 
 impl El for u8 {
@@ -157,6 +163,69 @@ impl El for TrD {
     }
     fn bin(id: i128, out: &mut Vec<u8>) {
         out.extend_from_slice(&(id as i64).to_le_bytes())
+    }
+}
+
+/// zero-sized drop-tracked element: accepts the same numbers as TrD and remembers (outside the value)
+/// the ids in creation order
+struct TzD(#[allow(dead_code)] Tz);
+thread_local! {
+    static ZMADE: std::cell::RefCell<Vec<i128>> = std::cell::RefCell::new(Vec::new());
+}
+fn zmade_take() -> Vec<i128> {
+    ZMADE.with(|z| std::mem::take(&mut *z.borrow_mut()))
+}
+fn tzd(id: i128) -> TzD {
+    ZMADE.with(|z| z.borrow_mut().push(id));
+    TzD(Tz::new())
+}
+impl Serialize for TzD {
+    fn serialize<S: Serializer>(&self, s: S) -> Result<S::Ok, S::Error> {
+        s.serialize_i64(0)
+    }
+}
+struct TzVisitor;
+impl<'de> Visitor<'de> for TzVisitor {
+    type Value = TzD;
+    fn expecting(&self, f: &mut fmt::Formatter) -> fmt::Result {
+        write!(f, "a non-negative id")
+    }
+    fn visit_i64<E: de::Error>(self, v: i64) -> Result<TzD, E> {
+        if v < 0 {
+            Err(E::custom("negative id"))
+        } else {
+            Ok(tzd(v as i128))
+        }
+    }
+    fn visit_u64<E: de::Error>(self, v: u64) -> Result<TzD, E> {
+        Ok(tzd(v as i128))
+    }
+}
+impl<'de> Deserialize<'de> for TzD {
+    fn deserialize<D: Deserializer<'de>>(d: D) -> Result<TzD, D::Error> {
+        d.deserialize_i64(TzVisitor)
+    }
+}
+impl El for TzD {
+    const TY: i128 = 3;
+    const SIZE: usize = 8;
+    fn mk(id: i128) -> TzD {
+        tzd(id)
+    }
+    fn id(&self) -> i128 {
+        -1
+    }
+    fn json(id: i128) -> String {
+        id.to_string()
+    }
+    fn value(id: i128) -> serde_json::Value {
+        serde_json::Value::from(id as i64)
+    }
+    fn bin(id: i128, out: &mut Vec<u8>) {
+        out.extend_from_slice(&(id as i64).to_le_bytes())
+    }
+    fn ids_of(arr: &[Self], made: &[i128]) -> Vec<i128> {
+        made.iter().copied().take(arr.len()).collect()
     }
 }
 
@@ -429,7 +498,7 @@ fn json_text<T: El>(items: &[i128]) -> String {
 fn bin_bytes<T: El>(items: &[i128]) -> Vec<u8> {
     let mut out = vec![];
     for i in items {
-        if *i >= 0 || T::TY == 2 {
+        if *i >= 0 || T::TY >= 2 {
             T::bin(*i, &mut out)
         } else {
             break; // u8 / f64 have no unparsable encoding: the input is cut here
@@ -494,10 +563,11 @@ fn run<T: El, N: ArrayLength>(c: &Parsed, orc: &mut Vec<String>) -> Vec<i128> {
     // serializer cross-check for inputs that are a well-formed array: the format's own output is
     // the input of the deserialisation below (round trip)
     let wellformed = items.len() == N::USIZE && all_valid(items);
-    if wellformed && c.fmt != 0 && c.fmt != 5 {
+    if wellformed && c.fmt != 0 && c.fmt != 5 && T::TY != 3 {
         let _ = ser_oracles::<T, N>(items, orc);
     }
     track::reset(1_000_000);
+    let _ = zmade_take();
     let ctl = Ctl::default();
     let res: Result<Result<GenericArray<T, N>, String>, String> = catch(|| match c.fmt {
         0 => GenericArray::<T, N>::deserialize(ScriptDe { sc: &c.sc, ctl: &ctl }).map_err(|e| e.to_string()),
@@ -511,7 +581,27 @@ fn run<T: El, N: ArrayLength>(c: &Parsed, orc: &mut Vec<String>) -> Vec<i128> {
     });
     let during = track::log_from(0);
     let polls = if c.fmt == 0 || c.fmt == 5 { ctl.calls.get() as i128 } else { -1 };
-    let drops: Vec<i128> = track::drops_sorted(&during).iter().map(|x| *x as i128).collect();
+    let mut drops: Vec<i128> = track::drops_sorted(&during).iter().map(|x| *x as i128).collect();
+    let made = zmade_take();
+    if T::TY == 3 {
+        // zero-sized elements: the destructor runs are counted; they are given the identities of the
+        // created elements that are not in the result when the count is what that requires
+        let zd = during.iter().filter(|e| matches!(e, Ev::ZDrop)).count();
+        let kept = match &res {
+            Ok(Ok(_)) => std::cmp::min(N::USIZE, made.len()),
+            _ => 0,
+        };
+        if zd == made.len() - kept {
+            drops = made[kept..].to_vec();
+            drops.sort();
+        } else {
+            orc.push(format!(
+                "{} zero-sized elements were created, {} are in the result, but {} destructors ran before the result was handed back",
+                made.len(), kept, zd
+            ));
+            drops = vec![-7; zd];
+        }
+    }
     let mut obs = vec![];
     match res {
         Err(m) => {
@@ -521,12 +611,12 @@ fn run<T: El, N: ArrayLength>(c: &Parsed, orc: &mut Vec<String>) -> Vec<i128> {
         Ok(Ok(arr)) => {
             obs.push(1);
             obs.push(arr.len() as i128);
-            obs.extend(arr.iter().map(|e| e.id()));
+            obs.extend(T::ids_of(&arr, &made));
             obs.push(polls);
             obs.push(drops.len() as i128);
             obs.extend(&drops);
             // an Ok array is the first N items of the input
-            let got: Vec<i128> = arr.iter().map(|e| e.id()).collect();
+            let got: Vec<i128> = T::ids_of(&arr, &made);
             let want: Vec<i128> = (0..N::USIZE).map(|k| items.get(k).copied().unwrap_or(c.sc.tail)).collect();
             if got != want {
                 orc.push(format!("Ok array {:?} is not the first N items of the input", got));
@@ -564,6 +654,11 @@ fn run<T: El, N: ArrayLength>(c: &Parsed, orc: &mut Vec<String>) -> Vec<i128> {
             _ => {}
         }
     }
+    let zn = log.iter().filter(|e| matches!(e, Ev::ZNew)).count();
+    let zd = log.iter().filter(|e| matches!(e, Ev::ZDrop)).count();
+    if zn != zd {
+        orc.push(format!("{} zero-sized elements created but {} destructor runs by the end of the case", zn, zd));
+    }
     created.sort();
     dropped.sort();
     if created != dropped {
@@ -588,6 +683,7 @@ fn do_case(case: Vec<i128>) {
     let r = catch(|| match c.ty {
         0 => run_ty::<u8>(&c, &mut orc),
         1 => run_ty::<f64>(&c, &mut orc),
+        3 => run_ty::<TzD>(&c, &mut orc),
         _ => run_ty::<TrD>(&c, &mut orc),
     });
     match r {
@@ -716,12 +812,14 @@ fn format_cases(n: usize, ty: i128, full: bool) {
             it[k] = -1;
             do_case(mk_case(1, ty, n, -1, 0, 0, -2, &it));
             do_case(mk_case(3, ty, n, m as i128, 1, m as i128, -2, &it));
-            if ty == 2 {
+            if ty >= 2 {
                 do_case(mk_case(2, ty, n, n as i128, 1, n as i128, -1, &it));
             }
         }
     }
-    do_case(mk_case(4, ty, n, 0, 0, 0, 0, &ids(30, n)));
+    if ty != 3 {
+        do_case(mk_case(4, ty, n, 0, 0, 0, 0, &ids(30, n)));
+    }
 }
 
 fn main() {
@@ -735,7 +833,7 @@ fn main() {
     let lattice = [0usize, 1, 2, 3, 5, 8, 16, 33];
     let full_upto = if thorough { 8 } else { 3 };
     for n in lattice {
-        for ty in 0..3 {
+        for ty in 0..4 {
             // thorough: every fault index also for the long arrays (tails/hints fully crossed for N <= 8)
             scripted_cases(n, ty, n <= full_upto, thorough);
             format_cases(n, ty, n <= full_upto || thorough);
@@ -746,7 +844,7 @@ fn main() {
     let count = if thorough { 400000 } else { 4000 };
     for _ in 0..count {
         let n = lattice[rng.below(lattice.len() as u64) as usize];
-        let ty = rng.below(3) as i128;
+        let ty = rng.below(4) as i128;
         let m = match rng.below(6) {
             0 => rng.below(n as u64 + 4) as usize,
             1 => n + 1,
@@ -768,7 +866,7 @@ fn main() {
                 *x = rng.below(256) as i128;
             }
         }
-        if fmt == 4 {
+        if fmt == 4 && ty != 3 {
             let it = ids(base, n);
             do_case(mk_case(4, ty, n, 0, 0, 0, 0, &it));
             continue;
@@ -784,7 +882,7 @@ fn main() {
                 items[k] = match fmt {
                     0 => [-1, -2, -3][rng.below(3) as usize],
                     2 => {
-                        if ty == 2 {
+                        if ty >= 2 {
                             -1
                         } else {
                             items[k]
